@@ -59,7 +59,8 @@ def default_signature(hist, idx, cat):
     return '%s:%s%s' % (ev['op'], cat, (':' + f) if f else '')
 
 
-def run(pid, tier, runs, assumptions, rule, signature=default_signature, extra_cov=None, traces=None, layouts=('C',)):
+def run(pid, tier, runs, assumptions, rule, signature=default_signature, extra_cov=None, traces=None, layouts=('C',),
+        api_traces=False):
     """runs: list of dicts(constants=..., nshards=..., name=...)."""
     rep = common.Reporter(pid, tier)
     states = trans = 0
@@ -97,6 +98,14 @@ def run(pid, tier, runs, assumptions, rule, signature=default_signature, extra_c
         cov['traces_validated_against_impl'] += tc['recorded_traces_accepted']
         cov['states'] += tc['trace_states']
         cov['transitions'] += tc['trace_transitions']
+    if api_traces and not only:
+        # the repository's own tests under the API tracer (harness/apitrace.py): Routine / Havoc / NewOpaque traces
+        from . import apitest
+        ac = apitest.run_stage(rep, tier)
+        cov.update(ac)
+        cov['traces_validated_against_impl'] += ac.get('api_traces_accepted', 0)
+        cov['states'] += ac.get('api_trace_states', 0)
+        cov['transitions'] += ac.get('api_trace_transitions', 0)
     if extra_cov:
         cov.update(extra_cov)
     return rep.finish(cov, assumptions)
